@@ -8,7 +8,7 @@ pub const POISON: u32 = 1 << 30;
 pub const POISON2: u32 = 1 << 29;
 pub const IDX: u32 = (1 << 29) - 1;
 
-#[derive(Clone, Debug, PartialEq, Eq, Hash)]
+#[derive(Clone, Debug, PartialEq, Eq, Hash, serde::Serialize, serde::Deserialize)]
 pub struct InTok {
     /// core terminal index
     pub term: usize,
